@@ -10,4 +10,5 @@ MCProg == (1 :> <<[api |-> "set", key |-> "k1", val |-> "a", chunks |-> 1], [api
 MCPre == {}
 NoDebris == {}
 NoKeyShards == <<>>
+NoPreRO == {}
 ====
